@@ -70,3 +70,11 @@ func VerifPacketConnFeed(c net.Conn, b []byte) {
 	n := copy(buf, b)
 	c.(*packetConn).readCh <- &packet{pooledBuf: buf, n: n, addr: c.(*packetConn).addr}
 }
+
+// VerifQueueCap reports the capacity of the per-client datagram queue of a virtual UDP connection.
+func VerifQueueCap(cx *Connection) int {
+	if pc, ok := cx.Conn.(*packetConn); ok {
+		return cap(pc.readCh)
+	}
+	return -1
+}
